@@ -91,14 +91,15 @@ def check_conversion_semantics(ctx, rid_shell, rid_basis, tables, rid_reject=Non
             for sg in itertools.product(("", "-"), repeat=3):
                 variants.append([sg[i] + base[p_] for i, p_ in enumerate(perm)])
         nsyn, bad = 0, None
+        # the flag is any true / false value (a numpy boolean from a comparison, 0 / 1), not only the two singletons
         for c1 in variants[::5]:
             for c2 in variants:
-                for reverse in (False, True):
+                for reverse in (False, True, np.True_, np.False_, 1, 0):
                     nsyn += 1
-                    want = oracle_shell(c1, c2, reverse)
+                    want = oracle_shell(c1, c2, bool(reverse))
                     got = run_shell(c1, c2, reverse)
                     if got != (want[0], want[1]):
-                        bad = bad or (c1, c2, reverse, got, want)
+                        bad = bad or (c1, c2, repr(reverse), got, want)
         if bad:
             c1, c2, reverse, got, want = bad
             ctx.violate(rid_shell, f"_convert_convention_shell({c1}, {c2}, reverse={reverse}) returns {got}, the definition gives {want}", ccs, ccs.node, construct=f"shell conversion {c1}->{c2} reverse={reverse}")
